@@ -229,12 +229,31 @@ pub fn template_scan(ctx: &Ctx, rng: &mut Rng, o: &mut Out) {
       json!({"f": f, "v": v})
     })
   };
+  let mut tmpl_cases = 0usize;
   for s in all_strings(&alphabet, max_len) {
-    o.op("create_template", json!({"t": s, "tr": []}), dump(&s, &[]));
+    let d = dump(&s, &[]);
+    // oracle: the documented capturing spellings ($NAME, $$NAME -> single; $$$NAME -> multiple) read
+    // independently; templates with a run of four or more sigils are left to the correspondence
+    if let Some(want) = spec_template(&s) {
+      tmpl_cases += 1;
+      let got: Option<Vec<(u64, String)>> = d["v"].as_array().map(|a| a.iter().map(|x| (x[0].as_u64().unwrap_or(9), x[1].as_str().unwrap_or("").to_string())).collect());
+      let frags: Option<String> = d["f"].as_array().map(|a| a.iter().map(|x| x.as_str().unwrap_or("")).collect());
+      let lit: String = want.1.clone();
+      if got.as_ref() != Some(&want.0) || frags.as_deref() != Some(lit.as_str()) {
+        o.oracle(
+          "template-spellings",
+          false,
+          json!({"fp": format!("fix template: variables recognised differ from the documented spellings two-sigils={}", s.contains("$$") && !s.contains("$$$")),
+                 "template": s, "want_vars": want.0, "want_literal": lit, "got": d}),
+        );
+      }
+    }
+    o.op("create_template", json!({"t": s, "tr": []}), d);
     if s.contains('A') || s.contains('_') {
       o.op("create_template", json!({"t": s, "tr": transforms}), dump(&s, &transforms));
     }
   }
+  o.oracle("template-spellings", true, json!({"cases": tmpl_cases}));
   // random longer templates with multi-byte text, indentation, long lines (512-byte look-back)
   let n = if ctx.thorough { 50_000 } else { 5_000 };
   let pieces = ["$", "$$", "$$$", "A", "B_1", "x", "é", "中", " ", "  ", "\n", "\n    ", "(", ")", "$A", "$$$ARGS", "$_", "1"];
@@ -367,6 +386,49 @@ pub fn oracle(ctx: &Ctx, rng: &mut Rng, o: &mut Out) {
   }
   o.oracle("anb-done", true, json!({"cases": cases}));
   let _ = rng;
+}
+
+/// the variables of a fix template and its literal text (all fragments concatenated), read from the
+/// documentation: `$`, `$$` or `$$$` followed by a name `[A-Z_][A-Z0-9_]*` is a variable (three
+/// sigils: a multiple capture, kind 1; one or two: single, kind 0); everything else is literal.
+/// `None` when the template has a run of four or more sigils (reading not documented).
+fn spec_template(t: &str) -> Option<(Vec<(u64, String)>, String)> {
+  let cs: Vec<char> = t.chars().collect();
+  let mut vars = vec![];
+  let mut lit = String::new();
+  let mut i = 0;
+  while i < cs.len() {
+    if cs[i] != '$' {
+      lit.push(cs[i]);
+      i += 1;
+      continue;
+    }
+    let mut k = 0;
+    while i + k < cs.len() && cs[i + k] == '$' {
+      k += 1;
+    }
+    if k >= 4 {
+      return None;
+    }
+    let mut j = i + k;
+    let name_start = j;
+    if j < cs.len() && (cs[j].is_ascii_uppercase() || cs[j] == '_') {
+      while j < cs.len() && (cs[j].is_ascii_uppercase() || cs[j].is_ascii_digit() || cs[j] == '_') {
+        j += 1;
+      }
+    }
+    if j > name_start {
+      vars.push((if k == 3 { 1 } else { 0 }, cs[name_start..j].iter().collect()));
+      i = j;
+    } else {
+      // sigils without a name are literal text
+      for _ in 0..k {
+        lit.push('$');
+      }
+      i += k;
+    }
+  }
+  Some((vars, lit))
 }
 
 /// CSS An+B micro-syntax read independently: optional `[+-]? digits? n` part, optional signed
